@@ -22,8 +22,9 @@ loaded from a regular grid (`Data.Load`): the node sequences are computed by the
 
 `flt <c> <obs>` (round 5): `phase_mean()` and `anomaly()` of the float64 observable `obs` (exact
 rationals of the doubles) as executed in IEEE binary64 — every `+`, `/`, `-` rounded to
-nearest-even, the sum over axis 0 row after row (`flPhaseMeanLoop`, `flAnomalyOf`); the answer
-holds the exact rationals of the resulting doubles.
+nearest-even, the sum over axis 0 row after row (`flPhaseMeanLoop ops64`, `flAnomalyOf ops64`); the
+answer holds the exact rationals of the resulting doubles.  `flt32 <c> <obs>`: the same for a
+float32 observable (`ops32`: `+`, `-` in binary32, the division in double then rounded to binary32).
 
 Answer: the outputs of the operations joined by `|`.
 -/
@@ -140,11 +141,14 @@ def answer (toks : List String) : String :=
   | ["ry", T, c] =>
     if c.toNat! = 0 then "raise:ZeroDivisionError"
     else s!"{rangeYearsF T.toNat! c.toNat!} {T.toNat! / c.toNat!}"
-  | ["flt", c, obs] =>
-    let M := ratMat obs
-    let N := match M with | [] => 0 | r :: _ => r.length
-    showPM N (flPhaseMeanLoop c.toNat! N M) ++ "|" ++
-      (let A := flAnomalyOf c.toNat! N M; showMatS A.length N A)
+  | [cmd, c, obs] =>
+    if cmd == "flt" || cmd == "flt32" then
+      let P := if cmd == "flt" then ops64 else ops32
+      let M := ratMat obs
+      let N := match M with | [] => 0 | r :: _ => r.length
+      showPM N (flPhaseMeanLoop P c.toNat! N M) ++ "|" ++
+        (let A := flAnomalyOf P c.toNat! N M; showMatS A.length N A)
+    else "bad-request"
   | _ => "bad-request"
 
 def main : IO Unit := runDriver answer
